@@ -1,5 +1,6 @@
 import TongoProofs.Lemmas.TlbPrims
 import TongoProofs.Lemmas.TlbStack
+import TongoProofs.Lemmas.TlbCanon
 import TongoGen.TlbTypes
 import TongoGen.IntTypes
 /-! # C03 — TL-B values survive encode/decode for every type the library ships
@@ -65,14 +66,129 @@ theorem same_constructor (env : Env) (hEnv : EnvWF env) (cs : Ctors) (hw : wfb e
   simp only [Outcome.ok.injEq, Prod.mk.injEq, Val.ctor, Val.cons.injEq, Val.sym.injEq] at hdec
   exact hdec.1.1.symm
 
-/-- **reencode_hash**, full statement for canonical types: decoding ANY cell and encoding the result reproduces the
-hash. Not proved (it needs the converse induction `encode ∘ decode = id` on canonical encodings: minimal VarUInteger
-lengths, no `Either` whose two sides encode the same value, unique dictionary labels); the proved part is
-`reencode_hash_partial`. On real chain data the statement is checked by the harness (ops `go.redec`, C04 evidence
-lists the non-canonical records). -/
+/-- **reencode_hash**, the unrestricted statement: decoding ANY cell and encoding the result reproduces the hash. It is
+FALSE for most shipped types (witnesses below: `reencode_varuint_witness`, `reencode_ref_witness`,
+`reencode_trailing_witness`; for dictionaries C05's label witnesses) — it holds exactly for
+the canonical types on cells the decoder consumed entirely: `reencode_hash_canonical`. For every well-formed type the
+proved part is `reencode_hash_partial`; on real chain data the statement is checked by the harness (ops `go.redec`,
+C04 evidence lists the non-canonical records). -/
 def ReencodeHash (H : List UInt8 → List UInt8) (env : Env) (T : Ty) : Prop :=
   ∀ fuel (c : Cell) v rest b', decode env fuel T (Slice.ofCell c) = .ok (v, rest) →
     encode env fuel T v Builder.empty = .ok b' → Cell.reprHash H b'.toCell = Cell.reprHash H c
+
+/-- **reencode_exact** (`Canonical T`, TongoModel/Tlb/Canon.lean: fixed-width integers, booleans, byte arrays, tagged
+constructors with distinct names, Maybe, Either, pointers, optional pointer fields, Magic fields, named types built
+from these): WHATEVER slice the decoder is given, if it answers `v` it has consumed exactly the bits
+`xs` (and no reference) that the encoder writes for `v` — into any builder. By the converse induction on descriptors
+(`Lemmas/TlbCanon.CInv`). -/
+theorem reencode_exact (env : Env) (T : Ty) (hc : Canonical env T) (fuel : Nat) (s s' : Slice) (v : Val)
+    (hd : decode env fuel T s = .ok (v, s')) :
+    ∃ xs, s = s'.prepend xs [] ∧ ∀ b b', encode env fuel T v b = .ok b' → b' = b.app xs [] :=
+  (CInv.all env fuel).dec canonFuel T hc s v s' hd
+
+/-- **reencode_hash_canonical**: for a canonical type, decoding ANY ordinary cell that the decoder consumes entirely
+and encoding the result yields THE SAME CELL — hence the same representation hash, for any hash function. (Both side
+conditions are necessary: `reencode_trailing_witness`; an exotic cell is re-encoded as an ordinary one.) -/
+theorem reencode_hash_canonical (H : List UInt8 → List UInt8) (env : Env) (T : Ty) (hc : Canonical env T)
+    (fuel : Nat) (c : Cell) (hord : c.ty = 0 ∧ c.mask = 0) (v : Val) (rest : Slice) (b' : Builder)
+    (hd : decode env fuel T (Slice.ofCell c) = .ok (v, rest)) (hall : rest.bits = [] ∧ rest.refs = [])
+    (he : encode env fuel T v Builder.empty = .ok b') :
+    b'.toCell = c ∧ Cell.reprHash H b'.toCell = Cell.reprHash H c := by
+  obtain ⟨xs, hs, henc⟩ := reencode_exact env T hc fuel _ rest v hd
+  have hb := henc _ _ he
+  have hcell : b'.toCell = c := by
+    obtain ⟨ty, mask, bits, refs⟩ := c
+    obtain ⟨rty, rmask, rbits, rrefs⟩ := rest
+    simp only [Cell.ty, Cell.mask] at hord
+    obtain ⟨rfl, rfl⟩ := hord
+    simp only at hall
+    obtain ⟨rfl, rfl⟩ := hall
+    simp only [Slice.ofCell, Slice.prepend, List.append_nil, List.nil_append, Slice.mk.injEq] at hs
+    obtain ⟨_, _, rfl, rfl⟩ := hs
+    rw [hb]
+    simp [Builder.empty, Builder.app, Builder.toCell]
+  exact ⟨hcell, by rw [hcell]⟩
+
+/-- the canonical regenerated descriptors (185 of the named types on the current source, e.g. ExtBlkRef, BlockIdExt's
+parts, HashUpdate, TickTock, SplitMergeInfo, the fixed-layout config parameters, the wallet data records): for every
+entry of the regenerated environment that passes the check, `reencode_hash_canonical` applies -/
+theorem reencode_hash_generated (H : List UInt8 → List UInt8) (T : Ty)
+    (hc : canonb TongoGen.TlbTypes.env canonFuel T = true)
+    (fuel : Nat) (c : Cell) (hord : c.ty = 0 ∧ c.mask = 0) (v : Val) (rest : Slice) (b' : Builder)
+    (hd : decode TongoGen.TlbTypes.env fuel T (Slice.ofCell c) = .ok (v, rest))
+    (hall : rest.bits = [] ∧ rest.refs = [])
+    (he : encode TongoGen.TlbTypes.env fuel T v Builder.empty = .ok b') :
+    Cell.reprHash H b'.toCell = Cell.reprHash H c :=
+  (reencode_hash_canonical H _ T hc fuel c hord v rest b' hd hall he).2
+
+open TongoGen.TlbTypes in
+theorem canonical_tlb_ExtBlkRef : Canonical env desc_tlb_ExtBlkRef := by unfold Canonical; decide +kernel
+open TongoGen.TlbTypes in
+theorem canonical_tlb_HashUpdate : Canonical env desc_tlb_HashUpdate := by unfold Canonical; decide +kernel
+open TongoGen.TlbTypes in
+theorem canonical_tlb_TickTock : Canonical env desc_tlb_TickTock := by unfold Canonical; decide +kernel
+open TongoGen.TlbTypes in
+theorem canonical_tlb_StorageExtraInfo : Canonical env desc_tlb_StorageExtraInfo := by unfold Canonical; decide +kernel
+open TongoGen.TlbTypes in
+theorem canonical_tlb_ValidatorDescr : Canonical env desc_tlb_ValidatorDescr := by unfold Canonical; decide +kernel
+open TongoGen.TlbTypes in
+/-- not canonical: anything that contains Grams (VarUInteger 16), a reference or a dictionary -/
+theorem noncanonical_examples :
+    canonb env canonFuel desc_tlb_CurrencyCollection = false ∧ canonb env canonFuel desc_tlb_Message = false ∧
+    canonb env canonFuel desc_tlb_Transaction = false ∧ canonb env canonFuel desc_tlb_StateInit = false := by
+  decide +kernel
+
+/-! Witnesses: why each excluded construct is excluded (decided on literals). -/
+
+set_option maxRecDepth 20000 in
+/-- **reencode_varuint_witness**: `VarUInteger 16` / Grams — the cell `len=2, 00 05` decodes to 5, which is written
+back as `len=1, 05`: a different cell. -/
+theorem reencode_varuint_witness :
+    (match Prim.dec .grams ({ bits := natToBits 4 2 ++ natToBits 16 5 } : Slice) with
+      | .ok (.int v, rest) =>
+        (match Prim.enc .grams (.int v) Builder.empty with
+          | .ok b => decide (v = 5) && rest.bits.isEmpty && decide (b.bits = natToBits 4 1 ++ natToBits 8 5)
+          | _ => false)
+      | _ => false) = true := by
+  decide
+
+set_option maxRecDepth 20000 in
+/-- **reencode_ref_witness**: `^uint8` — the decoder reads 8 bits of the child and ignores the rest; the re-encoded
+child has 8 bits. -/
+theorem reencode_ref_witness :
+    (let T : Ty := .struct (.cons "X" .ref (.uint 8) .nil)
+     let child := Cell.mk 0 0 (natToBits 8 7 ++ [true, true]) []
+     match decode (fun _ => none) 4 T ({ refs := [child] } : Slice) with
+      | .ok (v, _) =>
+        (match encode (fun _ => none) 4 T v Builder.empty with
+          | .ok b => (match b.refs with
+            | [Cell.mk _ _ bits _] => decide (bits = natToBits 8 7)
+            | _ => false)
+          | _ => false)
+      | _ => false) = true := by
+  decide
+
+set_option maxRecDepth 20000 in
+/-- **reencode_trailing_witness**: even for a canonical type the cell must be consumed entirely — `uint8` on a
+10-bit cell: the two trailing bits are not part of the value. -/
+theorem reencode_trailing_witness :
+    (match decode (fun _ => none) 2 (.uint 8) ({ bits := natToBits 8 7 ++ [true, true] } : Slice) with
+      | .ok (v, rest) =>
+        (match encode (fun _ => none) 2 (.uint 8) v Builder.empty with
+          | .ok b => decide (b.bits = natToBits 8 7) && decide (rest.bits = [true, true])
+          | _ => false)
+      | _ => false) = true := by
+  decide
+
+/-- **magic_orig_defect** (decided witness, found while proving `reencode_exact`): `Magic.ValidateTag` as shipped dropped
+the error of `ReadUint`, so for a tag whose value is 0 (`shardident$00`, `msg_metadata#0`, `out_msg_queue_extra#0`,
+`#00` …) a cell that ENDS before the tag passed the tag check with nothing consumed; the repaired decoder rejects it
+(`fix:` commit "Magic.ValidateTag returns the error of the read"). -/
+theorem magic_orig_defect :
+    (match decodeMagicOrig (some ⟨8, 0⟩) ({} : Slice), decodeMagic (some ⟨8, 0⟩) ({} : Slice) with
+      | .ok (_, rest), .err _ => rest.bits.isEmpty
+      | _, _ => false) = true := by
+  decide
 
 /-- **reencode_hash_partial** (side condition "decoded from our own encoding"): a cell produced by the encoder
 decodes to a value whose encoding is the same cell — in particular the same representation hash, for any hash
